@@ -46,6 +46,7 @@ let run_prog line =
   let fin b = if b then "1" else "0" in
   List.iter (fun tok ->
     if starts tok "src=" then begin src := unhex (after tok 4); emit "|" end
+    else if starts tok "frag=" then ()   (* fragmentation of the source reader is invisible through read_exact *)
     else if starts tok "dict=" then begin
       match M.decode_dict (unhex (after tok 5)) with
       | M.ROk d -> dec := M.fdec_add_dict !dec d; emit ("dict:ok:" ^ z_to_string d.M.d_id)
@@ -63,7 +64,7 @@ let run_prog line =
       | M.ROk d -> dec := d; emit "force:ok"
       | M.RErr _ -> emit "force:err"
       | M.RPanic _ -> emit "force:panic" end
-    else if starts tok "B" then begin
+    else if starts tok "B" && not (starts tok "B?") then begin
       let strat = match tok.[1] with
         | 'a' -> M.SAll
         | 'b' -> M.SUptoBlocks (z_of_string (after tok 2))
@@ -101,6 +102,12 @@ let run_prog line =
          | M.RErr _ -> emit "F:err"
          | M.RPanic _ -> emit "F:panic")
       | _ -> emit "F:bad" end
+    else if tok = "SI" then begin
+      match M.fdec_reset !dec !src with
+      | M.ROk ((d, rest), _) -> dec := d; src := rest; emit "I:ok"
+      | M.RErr _ -> dec := M.fdec_new; emit "I:err"
+      | M.RPanic _ -> dec := M.fdec_new; emit "I:panic" end
+    else if tok = "SX" then ()
     else if starts tok "S" then begin
       match M.stream_read !dec !src (z_of_string (after tok 1)) with
       | M.ROk ((d, rest), o) -> dec := d; src := rest; emit ("S:" ^ hex o)
@@ -111,6 +118,79 @@ let run_prog line =
       | M.ROk (d, o) -> dec := d; src := []; emit ("A:" ^ hex o)
       | M.RErr _ -> emit "A:err"
       | M.RPanic _ -> emit "A:panic" end
+    else if starts tok "B?" then begin
+      if not (M.fdec_is_finished !dec) then begin
+        let strat = match tok.[2] with
+          | 'a' -> M.SAll
+          | 'b' -> M.SUptoBlocks (z_of_string (after tok 3))
+          | _ -> M.SUptoBytes (z_of_string (after tok 3)) in
+        match M.fdec_decode_blocks !dec !src strat with
+        | M.ROk ((d, rest), f) -> dec := d; src := rest; emit ("B:ok:" ^ fin f)
+        | M.RErr _ -> emit "B:err"
+        | M.RPanic _ -> emit "B:panic" end end
+    else if starts tok "Z" then begin
+      (* Z<mode>,<n> : drive the frame to completion in one of five styles; one token with everything delivered *)
+      let mode = tok.[1] in
+      let n = int_of_string (after tok 3) in
+      let zn = z_of_int n in
+      let acc = Buffer.create 1024 in
+      let status = ref "ok" in
+      let iters = ref 0 in
+      let can () = int_of_z (M.fdec_can_collect !dec) in
+      let add l = List.iter (fun z -> Buffer.add_char acc (Char.chr (int_of_z z))) l in
+      (match mode with
+       | 'r' | 'c' | 'w' ->
+         while !status = "ok" && not (M.fdec_is_finished !dec && can () = 0) && !iters < 1000000 do
+           incr iters;
+           if not (M.fdec_is_finished !dec) then begin
+             let strat = if mode = 'c' then M.SUptoBlocks (z_of_int 1) else M.SUptoBytes zn in
+             match M.fdec_decode_blocks !dec !src strat with
+             | M.ROk ((d, rest), _) -> dec := d; src := rest
+             | M.RErr _ -> status := "err"
+             | M.RPanic _ -> status := "panic" end;
+           if !status = "ok" then begin
+             match mode with
+             | 'r' -> let (o, d) = M.fdec_read !dec zn in dec := d; add o
+             | 'c' -> let (o, d) = M.fdec_collect !dec in dec := d; (match o with Some l -> add l | None -> ())
+             | _ ->
+               let st = ((zn, z_of_int max_int), M.Z0) in
+               let (((o, d), _), _) = M.fdec_collect_to_writer M.budget_step !dec (z_of_int 1) st in
+               dec := d; add o end
+         done
+       | 's' ->
+         let fin_ = ref false in
+         while !status = "ok" && not !fin_ && !iters < 1000000 do
+           incr iters;
+           match M.stream_read !dec !src zn with
+           | M.ROk ((d, rest), o) -> dec := d; src := rest; add o; if o = [] then fin_ := true
+           | M.RErr _ -> status := "err"
+           | M.RPanic _ -> status := "panic"
+         done
+       | _ ->
+         (* decode_from_to with chunks of n source bytes; the chunk grows while a call makes no progress *)
+         let c = ref (max n 1) in
+         let stop = ref false in
+         while !status = "ok" && not !stop && !iters < 1000000 do
+           incr iters;
+           let remaining = List.length !src in
+           let chunk = min !c remaining in
+           let avail = List.filteri (fun i _ -> i < chunk) !src in
+           let fresh = (match !dec.M.fd_state with None -> true | Some _ -> false) in
+           match M.fdec_decode_from_to !dec avail zn with
+           | M.ROk ((d, read), o) ->
+             dec := d;
+             let r = int_of_z read in
+             src := List.filteri (fun i _ -> i >= r) !src;
+             add o;
+             if r = 0 && o = [] then begin
+               if M.fdec_is_finished !dec && can () = 0 then stop := true
+               else if chunk >= remaining then (if not (M.fdec_is_finished !dec) then status := "stuck"; stop := true)
+               else c := !c * 2 end
+           | M.RErr _ -> if fresh && chunk < remaining then c := !c * 2 else status := "err"
+           | M.RPanic _ -> status := "panic"
+         done);
+      if !iters >= 1000000 then status := "loop";
+      emit ("Z:" ^ (let b = Buffer.contents acc in if b = "" then "-" else String.concat "" (List.map (fun ch -> Printf.sprintf "%02x" (Char.code ch)) (List.init (String.length b) (String.get b)))) ^ ":" ^ !status) end
     else if tok = "Q" then begin
       let d = !dec in
       let (br, blocks, ck, cs) = match d.M.fd_state with
